@@ -116,7 +116,17 @@ def cases(draw):
             b = gen.Builder(draw, species)
             b.params = sp["params"]
             tree = gen.positive_tree(b, species, time=True)
-            sp["rules"].append({"type": "assignment", "eq": f"{tgt} = {ref.show(tree)}", "freq": freq, "tree": tree, "dest": tgt})
+            text = ref.show(tree)
+            if draw(st.integers(0, 3)) == 0:
+                # written the way people write it - with the minimal parentheses: a unary minus in front of a power,
+                # "exp(-A^2)", "-A^2 + f", "-(A - B)^2" (the power binds tighter than the sign)
+                a_, b_ = gen.sym(draw(st.sampled_from(species))), gen.sym(draw(st.sampled_from(species)))
+                e_ = gen.num(draw(st.sampled_from([2.0, 3.0])))
+                tree = draw(st.sampled_from([["mul", tree, ["exp", ["neg", ["pow", a_, e_]]]],
+                                             ["add", ["neg", ["pow", a_, e_]], tree],
+                                             ["add", ["neg", ["pow", ["sub", a_, b_], e_]], tree]]))
+                text = ref.show_min(tree)
+            sp["rules"].append({"type": "assignment", "eq": f"{tgt} = {text}", "freq": freq, "tree": tree, "dest": tgt})
     states = [{s: draw(st.one_of(st.integers(0, 9).map(float), gen.amount(9))) for s in sp["species"]}
               for _ in range(draw(st.integers(3, 6)))]
     share = shared_rate_constant(draw, sp)
